@@ -1404,4 +1404,42 @@ theorem Inv_run : ∀ (ops : List Op) (s : St), Inv s → Mono s.now ops → Inv
     apply ih _ (Inv_step h op h1)
     rw [step_now h op]; exact h2
 
+/-! ### a new daemon on the spool -/
+
+theorem Inv_empty (s : St) (ht : s.tasks = []) (hc : s.children = []) : Inv s where
+  sidU := by rw [ht]; simp [SidU]
+  uidU := by rw [ht]; intro a h; cases h
+  seqU := by rw [ht]; intro a h; cases h
+  tinv := by rw [ht]; intro a h; cases h
+  kids := by rw [hc]; intro a h; cases h
+  count := by rw [ht]; intro a h; cases h
+
+theorem Inv_injectAll (u : Nat) : ∀ (ts : List DTask) (s : St), Inv s → (∀ t ∈ ts, t.occ.Pairwise (· ≤ ·)) →
+    Inv (ts.foldl (fun s t => (inject s t.uid (some t.owner) t.maxSimul t.dur t.occ true u).1) s) := by
+  intro ts
+  induction ts with
+  | nil => intro s h _; exact h
+  | cons t r ih =>
+    intro s h hs
+    rw [List.foldl_cons]
+    exact ih _ (Inv_inject h _ _ _ _ _ _ _ (hs t List.mem_cons_self)) (fun x hx => hs x (List.mem_cons_of_mem _ hx))
+
+/-- the state `reload` builds from queue files with ascending streams is well-formed -/
+theorem Inv_reload (files : List (Nat × List DTask)) (me now : Nat)
+    (hs : ∀ f ∈ files, ∀ t ∈ f.2, t.occ.Pairwise (· ≤ ·)) : Inv (reload files me now) := by
+  unfold reload
+  simp only []
+  have : ∀ (fs : List (Nat × List DTask)) (s : St), Inv s → (∀ f ∈ fs, ∀ t ∈ f.2, t.occ.Pairwise (· ≤ ·)) →
+      Inv (fs.foldl (fun s f =>
+        f.2.foldl (fun s t => (inject s t.uid (some t.owner) t.maxSimul t.dur t.occ true notAUid).1) s) s) := by
+    intro fs
+    induction fs with
+    | nil => intro s h _; exact h
+    | cons f r ih =>
+      intro s h hs
+      rw [List.foldl_cons]
+      exact ih _ (Inv_injectAll notAUid f.2 s h (hs f List.mem_cons_self))
+        (fun x hx => hs x (List.mem_cons_of_mem _ hx))
+  exact this files _ (Inv_empty _ rfl rfl) hs
+
 end Echse.Daemon
